@@ -57,9 +57,13 @@ EXTENDS GposLayoutCommon, Kern, TLC
 \*     ("none"); HarfBuzz requires the preceding glyph to be a mark ("base"); allsorts requires
 \*     both glyphs to be marks ("both"); "mark" in the sense of Dev_MarkAttachedIsMark.
 \* Dev_KernMinimum / Dev_KernFmt2Base / Dev_KernCrossStream : see Kern.tla.
+\* Dev_DeltaRoundTie       : a variation delta that is exactly halfway between two integers is
+\*     rounded away from zero (C roundf: HarfBuzz, allsorts) or up (floor(x + 0.5): the rounding
+\*     OpenType prescribes for normalised coordinates, fontTools otRound).  Differs for negative
+\*     ties only (-1.5 -> -2 / -1).
 DevDefault == [pairSkip |-> FALSE, ctxSkip |-> FALSE, seqFlag |-> "nested", ligOOR |-> "none",
                mkDyn |-> TRUE, mkmkTest |-> "both",
-               kernMin |-> "min", kernBase |-> "array", kernCross |-> "ignore"]
+               kernMin |-> "min", kernBase |-> "array", kernCross |-> "ignore", varTie |-> "away"]
 
 \* ---- placements -------------------------------------------------------------
 PNone == [t |-> "N", i |-> -1, ax |-> 0, ay |-> 0, bx |-> 0, by |-> 0, r |-> FALSE]
@@ -78,11 +82,80 @@ InitInfos(gdef, in) ==
 \* what is observable (and compared with allsorts::gpos::Info)
 Proj(s) == [j \in 1 .. Len(s) |-> [g |-> s[j].g, k |-> s[j].k, pl |-> s[j].pl]]
 
+\* ---- variation deltas: Device / VariationIndex tables of value records and anchors ---------
+\* A value record may carry the field dev = <<dxp, dyp, dxa, dya>>, an anchor of format 3 the
+\* field dev = <<dx, dy>>; each entry describes what the corresponding offset points at:
+\*   [k |-> "null"]                   NULL offset
+\*   [k |-> "hint", fmt |-> 1..3]     Device table (ppem-specific pixel corrections): says nothing
+\*                                    about the unhinted design-unit positions this property is about
+\*   [k |-> "var", o |-> outer, i |-> inner]   VariationIndex table (deltaFormat 0x8000)
+\* A value record / anchor without the field has NULL offsets (every program of rounds 1-3).
+\* prog.var (optional field) = [tuple |-> [has : BOOLEAN, c : Seq(F2Dot14 raw value, 16384 = 1.0)],
+\*      store : BOOLEAN   (GDEF 1.3 with an ItemVariationStore / GDEF 1.2 without one),
+\*      regions : Seq(Seq([s, p, e]))  one [start, peak, end] per axis,
+\*      data : Seq([regs : Seq(region index), wc : number of 16-bit columns, sets : Seq(Seq(delta))])]
+\* The delta of a VariationIndex for the instance `tuple` is  round(SUM_r scalar(region r) * delta_r)
+\* (OpenType "Item variation stores"); it is 0 when shaping without a tuple, when GDEF has no
+\* store, when there is no GDEF, and when the index names no delta set.  The generated regions give
+\* per-axis scalars that are multiples of 1/4 (VarWF), so the arithmetic is exact here and in f32.
+DevNull == [k |-> "null"]
+VarOn(prog) == "var" \in DOMAIN prog /\ prog.var.tuple.has
+\* (kf: emulation of a KNOWN deviation of allsorts, used only to NAME a mismatch - KnownAlts below;
+\*  no reading D of DevsFor has the field, so Outcomes never contains such a result)
+KfNone == [dropZ |-> FALSE, noAnch |-> FALSE]
+VarCtx(D, prog) ==
+  IF VarOn(prog) /\ prog.var.store /\ HasGdef(prog.gdef)
+  THEN [on |-> TRUE, var |-> prog.var, tie |-> D.varTie, kf |-> IF "kf" \in DOMAIN D THEN D.kf ELSE KfNone]
+  ELSE [on |-> FALSE]
+
+\* per-axis scalar in quarters
+AxisQ(c, r) ==
+  IF r.p = 0 THEN 4
+  ELSE IF c < r.s \/ c > r.e THEN 0
+  ELSE IF c = r.p THEN 4
+  ELSE IF c < r.p THEN ((c - r.s) * 4) \div (r.p - r.s)
+  ELSE ((r.e - c) * 4) \div (r.e - r.p)
+RECURSIVE RegionQ(_, _, _)
+RegionQ(reg, c, k) == IF k > Len(reg) THEN 1 ELSE AxisQ(c[k], reg[k]) * RegionQ(reg, c, k + 1)
+RECURSIVE Pow4(_)
+Pow4(n) == IF n = 0 THEN 1 ELSE 4 * Pow4(n - 1)
+RECURSIVE DeltaSum(_, _, _, _)
+DeltaSum(var, blk, row, k) ==
+  IF k > Len(row) THEN 0
+  ELSE RegionQ(var.regions[blk.regs[k] + 1], var.tuple.c, 1) * row[k] + DeltaSum(var, blk, row, k + 1)
+\* N / Dn rounded to the nearest integer, ties per Dev_DeltaRoundTie
+RoundQ(tie, N, Dn) ==
+  IF N >= 0 \/ tie = "up" THEN (2 * N + Dn) \div (2 * Dn) ELSE -((Dn - 2 * N) \div (2 * Dn))
+DeltaOf(vc, d) ==
+  IF ~vc.on \/ d.k # "var" THEN 0
+  ELSE IF d.o + 1 > Len(vc.var.data) THEN 0
+  ELSE LET blk == vc.var.data[d.o + 1] IN
+       IF d.i + 1 > Len(blk.sets) THEN 0
+       ELSE RoundQ(vc.tie, DeltaSum(vc.var, blk, blk.sets[d.i + 1], 1), Pow4(Len(vc.var.tuple.c)))
+DeltaIsTie(vc, d) ==
+  vc.on /\ d.k = "var" /\ d.o + 1 <= Len(vc.var.data) /\ d.i + 1 <= Len(vc.var.data[d.o + 1].sets)
+  /\ LET blk == vc.var.data[d.o + 1]  Dn == Pow4(Len(vc.var.tuple.c)) IN
+     (2 * DeltaSum(vc.var, blk, blk.sets[d.i + 1], 1) + Dn) % (2 * Dn) = 0
+
 \* ---- ValueRecord -------------------------------------------------------------
-\* v = [xp, yp, xa, ya]; a field is present iff its ValueFormat bit is set (bits 0..3);
-\* bits 4..7 announce device/variation offsets, which are null in every generated program.
-Eff(vf, v) == [xp |-> IF Bit(vf, 0) THEN v.xp ELSE 0, yp |-> IF Bit(vf, 1) THEN v.yp ELSE 0,
-               xa |-> IF Bit(vf, 2) THEN v.xa ELSE 0, ya |-> IF Bit(vf, 3) THEN v.ya ELSE 0]
+\* v = [xp, yp, xa, ya (, dev)]; a field is present iff its ValueFormat bit is set (bits 0..3);
+\* bits 4..7 announce the four device / variation-index offsets (present whether or not the value
+\* field itself is).  The effective value of a field is its default plus its variation delta.
+DevOf(v, b) == IF "dev" \in DOMAIN v THEN v.dev[b] ELSE DevNull
+Eff(vc, vf, v) ==
+  LET xp0 == IF Bit(vf, 0) THEN v.xp ELSE 0
+      yp0 == IF Bit(vf, 1) THEN v.yp ELSE 0
+      drop == vc.on /\ vc.kf.dropZ /\ xp0 = 0 /\ yp0 = 0 IN
+  [xp |-> xp0 + (IF Bit(vf, 4) /\ ~drop THEN DeltaOf(vc, DevOf(v, 1)) ELSE 0),
+   yp |-> yp0 + (IF Bit(vf, 5) /\ ~drop THEN DeltaOf(vc, DevOf(v, 2)) ELSE 0),
+   xa |-> (IF Bit(vf, 2) THEN v.xa ELSE 0) + (IF Bit(vf, 6) THEN DeltaOf(vc, DevOf(v, 3)) ELSE 0),
+   ya |-> (IF Bit(vf, 3) THEN v.ya ELSE 0) + (IF Bit(vf, 7) THEN DeltaOf(vc, DevOf(v, 4)) ELSE 0)]
+
+\* effective anchor: format 3 may carry device / variation-index offsets for x and y
+EffAnchor(vc, a) ==
+  IF a.f = 3 /\ "dev" \in DOMAIN a /\ ~(vc.on /\ vc.kf.noAnch)
+  THEN [f |-> 3, x |-> a.x + DeltaOf(vc, a.dev[1]), y |-> a.y + DeltaOf(vc, a.dev[2])]
+  ELSE [f |-> a.f, x |-> a.x, y |-> a.y]
 
 \* placement offsets accumulate; on an attached mark they move the mark relative to its base
 \* (allsorts folds them into the base anchor).  A displacement of a cursively attached glyph
@@ -101,14 +174,14 @@ Adjust(info, v) ==
                     !.pl = IF v.xp = 0 /\ v.yp = 0 THEN @ ELSE Combine(@, v.xp, v.yp)]
 
 \* ---- type 1: SinglePos  [f=1, cov, vf, v] | [f=2, cov, vf, vs : Seq(v) by coverage index] ----
-SingleFind(subs, g) ==
+SingleFind(vc, subs, g) ==
   LET ks == {k \in 1 .. Len(subs) : Covered(subs[k].cov, g)} IN
   IF ks = {} THEN [hit |-> FALSE]
   ELSE LET st == subs[Min(ks)] IN
-       [hit |-> TRUE, v |-> Eff(st.vf, IF st.f = 1 THEN st.v ELSE st.vs[CovIdx(st.cov, g) + 1])]
+       [hit |-> TRUE, v |-> Eff(vc, st.vf, IF st.f = 1 THEN st.v ELSE st.vs[CovIdx(st.cov, g) + 1])]
 
-SingleAt(L, s, i) ==
-  LET r == SingleFind(L.subs, s[i].g) IN
+SingleAt(vc, L, s, i) ==
+  LET r == SingleFind(vc, L.subs, s[i].g) IN
   IF r.hit THEN [s EXCEPT ![i] = Adjust(@, r.v)] ELSE s
 
 \* ---- type 2: PairPos --------------------------------------------------------
@@ -123,24 +196,24 @@ PairRec(st, g1, g2) ==
        IF ms = {} THEN [hit |-> FALSE] ELSE [hit |-> TRUE, rec |-> rs[Min(ms)]]
   ELSE [hit |-> TRUE, rec |-> st.recs[ClassOf(st.cd1, g1) + 1][ClassOf(st.cd2, g2) + 1]]
 
-PairFind(subs, g1, g2) ==
+PairFind(vc, subs, g1, g2) ==
   LET ks == {k \in 1 .. Len(subs) : PairRec(subs[k], g1, g2).hit} IN
   IF ks = {} THEN [hit |-> FALSE, vf2 |-> 0]
   ELSE LET st == subs[Min(ks)]  rec == PairRec(st, g1, g2).rec IN
-       [hit |-> TRUE, v1 |-> Eff(st.vf1, rec.v1), v2 |-> Eff(st.vf2, rec.v2), vf2 |-> st.vf2]
+       [hit |-> TRUE, v1 |-> Eff(vc, st.vf1, rec.v1), v2 |-> Eff(vc, st.vf2, rec.v2), vf2 |-> st.vf2]
 
-PairAt(L, s, i1, i2) ==
-  LET r == PairFind(L.subs, s[i1].g, s[i2].g) IN
+PairAt(vc, L, s, i1, i2) ==
+  LET r == PairFind(vc, L.subs, s[i1].g, s[i2].g) IN
   IF r.hit
   THEN [s |-> [s EXCEPT ![i1] = Adjust(@, r.v1), ![i2] = Adjust(@, r.v2)], skip |-> r.vf2 # 0]
   ELSE [s |-> s, skip |-> FALSE]
 
-RECURSIVE PairLoop(_, _, _, _, _)
-PairLoop(D, L, gdef, s, i1) ==
+RECURSIVE PairLoop(_, _, _, _, _, _)
+PairLoop(D, vc, L, gdef, s, i1) ==
   LET i2 == NextSeen(FlagOf(L), gdef, s, i1) IN
   IF i1 = 0 \/ i2 = 0 THEN s
-  ELSE LET r == PairAt(L, s, i1, i2) IN
-       PairLoop(D, L, gdef, r.s,
+  ELSE LET r == PairAt(vc, L, s, i1, i2) IN
+       PairLoop(D, vc, L, gdef, r.s,
                 IF D.pairSkip /\ r.skip THEN NextSeen(FlagOf(L), gdef, s, i2) ELSE i2)
 
 \* ---- anchors: [f : 0..3, x, y]; f = 0 is a null offset, formats 1-3 all mean (x, y) ----------
@@ -158,16 +231,17 @@ CursFind(subs, g1, g2) ==
 
 \* A glyph that already carries a displacement of its own and is then joined cursively is
 \* outside the fragment, like the displacement of an already joined glyph (Combine).
-CursAt(L, s, i1, i2) ==
+CursAt(vc, L, s, i1, i2) ==
   LET r == CursFind(L.subs, s[i1].g, s[i2].g) IN
   IF r.hit
-  THEN [s EXCEPT ![i1].pl = IF @.t = "D" THEN PUnsupported ELSE PCurs(i2 - 1, FlagRTL(L.flag), r.E, r.X)]
+  THEN [s EXCEPT ![i1].pl = IF @.t = "D" THEN PUnsupported
+                            ELSE PCurs(i2 - 1, FlagRTL(L.flag), EffAnchor(vc, r.E), EffAnchor(vc, r.X))]
   ELSE s
 
-RECURSIVE CursLoop(_, _, _, _)
-CursLoop(L, gdef, s, i1) ==
+RECURSIVE CursLoop(_, _, _, _, _)
+CursLoop(vc, L, gdef, s, i1) ==
   LET i2 == NextSeen(FlagOf(L), gdef, s, i1) IN
-  IF i1 = 0 \/ i2 = 0 THEN s ELSE CursLoop(L, gdef, CursAt(L, s, i1, i2), i2)
+  IF i1 = 0 \/ i2 = 0 THEN s ELSE CursLoop(vc, L, gdef, CursAt(vc, L, s, i1, i2), i2)
 
 \* ---- types 4 and 6: MarkBasePos / MarkMarkPos --------------------------------
 \*   [mcov, bcov, nc, marks : Seq([c, a]) by mark coverage index,
@@ -189,7 +263,7 @@ MarkLigOk(D, st, gl, gm, lc) ==
      c >= 0 /\ HasAnchor(comps[c + 1][MarkRec(st, gm).c + 1])
 
 \* attach the glyph at j to the glyph at b (first subtable that provides both anchors)
-AttachAt(D, L, s, b, j) ==
+AttachAt(D, vc, L, s, b, j) ==
   LET gb == s[b].g  gm == s[j].g
       ks == {k \in 1 .. Len(L.subs) :
                IF L.ty = 5 THEN MarkLigOk(D, L.subs[k], gb, gm, s[j].lc)
@@ -201,7 +275,7 @@ AttachAt(D, L, s, b, j) ==
                  THEN LET comps == st.ligs[CovIdx(st.lcov, gb) + 1] IN
                       comps[LigComp(D, s[j].lc, Len(comps)) + 1][mr.c + 1]
                  ELSE st.bases[CovIdx(st.bcov, gb) + 1][mr.c + 1] IN
-       [s EXCEPT ![j].pl = PMark(b - 1, A, mr.a), ![j].mk = TRUE]
+       [s EXCEPT ![j].pl = PMark(b - 1, EffAnchor(vc, A), EffAnchor(vc, mr.a)), ![j].mk = TRUE]
 
 \* is the glyph of info x a mark for the purposes of mark attachment (Dev_MarkAttachedIsMark)?
 \* x.mk starts as "GDEF class 3" (InitInfos) and is set by every attachment (AttachAt).
@@ -210,26 +284,26 @@ CountsAsMark(D, gdef, x) == IF D.mkDyn THEN x.mk ELSE IsMarkGlyph(gdef, x.g)
 \* MarkBase / MarkLig: every glyph is offered to the lookup with the nearest preceding
 \* non-mark glyph as its base ("marks are anchored to the preceding base / ligature").
 \* Whether the offered glyph is attached is decided by the subtables' coverages alone.
-RECURSIVE MarkLoop(_, _, _, _, _)
-MarkLoop(D, L, gdef, s, j) ==
+RECURSIVE MarkLoop(_, _, _, _, _, _)
+MarkLoop(D, vc, L, gdef, s, j) ==
   IF j > Len(s) THEN s
   ELSE LET bs == {b \in 1 .. (j - 1) : ~CountsAsMark(D, gdef, s[b])} IN
-       MarkLoop(D, L, gdef, IF bs = {} THEN s ELSE AttachAt(D, L, s, Max(bs), j), j + 1)
+       MarkLoop(D, vc, L, gdef, IF bs = {} THEN s ELSE AttachAt(D, vc, L, s, Max(bs), j), j + 1)
 
 \* MarkMark: the mark seen by the lookup flag that precedes the current one is the base mark.
 \* Two marks of one ligature attach to each other only within the same component.
 MarkMarkCompat(a, b) == a.lc = b.lc \/ a.lig \/ b.lig
 
-RECURSIVE MarkMarkLoop(_, _, _, _, _)
-MarkMarkLoop(D, L, gdef, s, j) ==
+RECURSIVE MarkMarkLoop(_, _, _, _, _, _)
+MarkMarkLoop(D, vc, L, gdef, s, j) ==
   IF j > Len(s) THEN s
   ELSE LET i == PrevSeen(FlagOf(L), gdef, s, j) IN
-       MarkMarkLoop(D, L, gdef,
+       MarkMarkLoop(D, vc, L, gdef,
                     IF /\ Sees(FlagOf(L), gdef, s[j].g) /\ i # 0
                        /\ (D.mkmkTest = "both" => CountsAsMark(D, gdef, s[j]))
                        /\ (D.mkmkTest \in {"both", "base"} => CountsAsMark(D, gdef, s[i]))
                        /\ MarkMarkCompat(s[i], s[j])
-                    THEN AttachAt(D, L, s, i, j) ELSE s,
+                    THEN AttachAt(D, vc, L, s, i, j) ELSE s,
                     j + 1)
 
 \* ---- types 7 and 8: (chained) context ------------------------------------------
@@ -300,19 +374,20 @@ ContextFind(L, gdef, s, i) ==
 \* one nested lookup record <<seqIdx, lookup index>> of a rule that matched at i
 NestedAt(D, prog, gdef, Lp, s, i, rec) ==
   LET Ln == prog.lookups[rec[2] + 1]
+      vc == VarCtx(D, prog)
       Fs == IF D.seqFlag = "nested" THEN FlagOf(Ln) ELSE FlagOf(Lp)
       i1 == NthSeen(Fs, gdef, s, i, rec[1]) IN
   IF i1 = 0 THEN s
-  ELSE CASE Ln.ty = 1 -> SingleAt(Ln, s, i1)
+  ELSE CASE Ln.ty = 1 -> SingleAt(vc, Ln, s, i1)
          [] Ln.ty = 2 -> LET i2 == NextSeen(FlagOf(Ln), gdef, s, i1) IN
-                         IF i2 = 0 THEN s ELSE PairAt(Ln, s, i1, i2).s
+                         IF i2 = 0 THEN s ELSE PairAt(vc, Ln, s, i1, i2).s
          [] Ln.ty = 3 -> LET i2 == NextSeen(FlagOf(Ln), gdef, s, i1) IN
-                         IF i2 = 0 THEN s ELSE CursAt(Ln, s, i1, i2)
+                         IF i2 = 0 THEN s ELSE CursAt(vc, Ln, s, i1, i2)
          [] Ln.ty \in {4, 5} ->
                          LET b == PrevSeen(FlagIgnoreMarksOnly, gdef, s, i1) IN
-                         IF b = 0 THEN s ELSE AttachAt(D, Ln, s, b, i1)
+                         IF b = 0 THEN s ELSE AttachAt(D, vc, Ln, s, b, i1)
          [] Ln.ty = 6 -> LET b == PrevSeen(FlagOf(Ln), gdef, s, i1) IN
-                         IF b = 0 THEN s ELSE AttachAt(D, Ln, s, b, i1)
+                         IF b = 0 THEN s ELSE AttachAt(D, vc, Ln, s, b, i1)
          [] OTHER     -> [j \in 1 .. Len(s) |-> [s[j] EXCEPT !.pl = PUnsupported]]
                          \* a context lookup nested in a context lookup is not modelled
 
@@ -331,18 +406,18 @@ CtxLoop(D, prog, gdef, L, s, i) ==
                     IF D.ctxSkip THEN r.last + 1 ELSE i + 1)
 
 \* ---- one lookup over the whole run ----------------------------------------------
-RECURSIVE SingleLoop(_, _, _, _)
-SingleLoop(L, gdef, s, i) ==
+RECURSIVE SingleLoop(_, _, _, _, _)
+SingleLoop(vc, L, gdef, s, i) ==
   IF i > Len(s) THEN s
-  ELSE SingleLoop(L, gdef, IF Sees(FlagOf(L), gdef, s[i].g) THEN SingleAt(L, s, i) ELSE s, i + 1)
+  ELSE SingleLoop(vc, L, gdef, IF Sees(FlagOf(L), gdef, s[i].g) THEN SingleAt(vc, L, s, i) ELSE s, i + 1)
 
 ApplyLookup(D, prog, L, s) ==
-  LET gdef == prog.gdef IN
-  CASE L.ty = 1 -> SingleLoop(L, gdef, s, 1)
-    [] L.ty = 2 -> PairLoop(D, L, gdef, s, FirstSeen(FlagOf(L), gdef, s))
-    [] L.ty = 3 -> CursLoop(L, gdef, s, FirstSeen(FlagOf(L), gdef, s))
-    [] L.ty \in {4, 5} -> MarkLoop(D, L, gdef, s, 2)
-    [] L.ty = 6 -> MarkMarkLoop(D, L, gdef, s, 2)
+  LET gdef == prog.gdef  vc == VarCtx(D, prog) IN
+  CASE L.ty = 1 -> SingleLoop(vc, L, gdef, s, 1)
+    [] L.ty = 2 -> PairLoop(D, vc, L, gdef, s, FirstSeen(FlagOf(L), gdef, s))
+    [] L.ty = 3 -> CursLoop(vc, L, gdef, s, FirstSeen(FlagOf(L), gdef, s))
+    [] L.ty \in {4, 5} -> MarkLoop(D, vc, L, gdef, s, 2)
+    [] L.ty = 6 -> MarkMarkLoop(D, vc, L, gdef, s, 2)
     [] L.ty \in {7, 8} -> CtxLoop(D, prog, gdef, L, s, 1)
 
 \* a feature applies its lookups in increasing lookup-list order, each once
@@ -385,7 +460,7 @@ HasNonGdefMark(prog) ==
 DevsFor(prog) ==
   LET bools(c) == IF c THEN {FALSE, TRUE} ELSE {FALSE} IN
   {[pairSkip |-> ps, ctxSkip |-> cs, seqFlag |-> sf, ligOOR |-> lo, mkDyn |-> md, mkmkTest |-> mt,
-    kernMin |-> km, kernBase |-> kb, kernCross |-> kc] :
+    kernMin |-> km, kernBase |-> kb, kernCross |-> kc, varTie |-> vt] :
      ps \in bools(prog.gpos /\ HasTy(prog, {2})),
      cs \in bools(prog.gpos /\ HasTy(prog, {7, 8})),
      sf \in IF prog.gpos /\ HasTy(prog, {7, 8}) THEN {"nested", "parent"} ELSE {"nested"},
@@ -394,10 +469,27 @@ DevsFor(prog) ==
      mt \in IF HasNonGdefMark(prog) /\ HasTy(prog, {6}) THEN {"both", "base", "none"} ELSE {"both"},
      km \in IF KernHasMinimum(prog.kern) THEN {"min", "max", "ignore"} ELSE {"min"},
      kb \in IF KernHasFmt2(prog.kern) THEN {"array", "subtable"} ELSE {"array"},
-     kc \in IF UsesKernTable(prog) /\ KernHasCross(prog.kern) THEN {"ignore", "shift"} ELSE {"ignore"}}
+     kc \in IF UsesKernTable(prog) /\ KernHasCross(prog.kern) THEN {"ignore", "shift"} ELSE {"ignore"},
+     vt \in IF prog.gpos /\ VarOn(prog) THEN {"away", "up"} ELSE {"away"}}
 
 \* every conformant outcome of shaping `in` with `prog`
 Outcomes(prog, in) == {Proj(Shape(D, prog, in)) : D \in DevsFor(prog)}
+
+\* What allsorts is KNOWN to do instead (known_findings.txt), computed only to name a mismatch:
+\* a result outside Outcomes that equals one of these gets the finding's key, any other is new.
+WithKf(D, kf) ==
+  [pairSkip |-> D.pairSkip, ctxSkip |-> D.ctxSkip, seqFlag |-> D.seqFlag, ligOOR |-> D.ligOOR, mkDyn |-> D.mkDyn,
+   mkmkTest |-> D.mkmkTest, kernMin |-> D.kernMin, kernBase |-> D.kernBase, kernCross |-> D.kernCross,
+   varTie |-> D.varTie, kf |-> kf]
+KnownKinds ==
+  << <<"valuerecord-placement-delta-dropped-when-default-placement-zero", [dropZ |-> TRUE, noAnch |-> FALSE]>>,
+     <<"anchor-variation-index-ignored", [dropZ |-> FALSE, noAnch |-> TRUE]>> >>
+KnownAlt(prog, in, k) == {Proj(Shape(WithKf(D, KnownKinds[k][2]), prog, in)) : D \in DevsFor(prog)}
+\* key of the known deviation that explains `got` ("" if none, or if got is conformant)
+KnownKey(prog, in, outs, got) ==
+  IF ~(prog.gpos /\ VarOn(prog)) \/ got \in outs THEN ""
+  ELSE LET ks == {k \in 1 .. Len(KnownKinds) : got \in KnownAlt(prog, in, k)} IN
+       IF ks = {} THEN "" ELSE KnownKinds[Min(ks)][1]
 
 \* inside the modelled fragment?
 Modelled(infos) == \A j \in 1 .. Len(infos) : infos[j].pl.t # "X"
